@@ -28,6 +28,8 @@ type simConn struct {
 	notify        chan struct{} // driver wake-up: the broker wrote or closed
 	skew          time.Duration
 	failNextWrite bool
+	stalled       bool          // the peer does not read: writes block until it does (or the write deadline passes)
+	unstall       chan struct{} // closed when the stall is lifted
 	resetAt       int64 // when the link went down because a write failed (-1: not that way)
 	// counters for oracles
 	writesAfterClose int
@@ -135,6 +137,37 @@ func (c *simConn) Write(p []byte) (int, error) {
 		}
 		return 0, errReset
 	}
+	for c.stalled && !c.closed && !c.reset {
+		// a full send buffer: the writer waits (a durable block inside the bubble)
+		ch, wdl := c.unstall, c.wdl
+		c.mu.Unlock()
+		var tm <-chan time.Time
+		if !wdl.IsZero() {
+			d := time.Until(wdl)
+			if d <= 0 {
+				c.mu.Lock()
+				return 0, timeoutErr{}
+			}
+			t := time.NewTimer(d)
+			tm = t.C
+			select {
+			case <-ch:
+				t.Stop()
+			case <-tm:
+				c.mu.Lock()
+				return 0, timeoutErr{}
+			}
+		} else {
+			<-ch
+		}
+		c.mu.Lock()
+	}
+	if c.closed {
+		return 0, errClosed
+	}
+	if c.reset {
+		return 0, errReset
+	}
 	if !c.wdl.IsZero() && !time.Now().Before(c.wdl) {
 		return 0, timeoutErr{}
 	}
@@ -153,6 +186,10 @@ func (c *simConn) Close() error {
 	if !c.closed {
 		c.closed = true
 		c.closedAt = time.Since(c.start).Milliseconds()
+	}
+	if c.stalled {
+		c.stalled = false
+		close(c.unstall)
 	}
 	c.mu.Unlock()
 	c.poke()
@@ -211,6 +248,10 @@ func (c *simConn) clientClose() {
 func (c *simConn) cut() {
 	c.mu.Lock()
 	c.reset = true
+	if c.stalled {
+		c.stalled = false
+		close(c.unstall)
+	}
 	c.mu.Unlock()
 	c.poke()
 }
@@ -230,6 +271,25 @@ func (c *simConn) linkDown() bool {
 	c.mu.Lock()
 	defer c.mu.Unlock()
 	return c.reset || c.inEOF
+}
+
+// stall: the peer stops reading until release() (slow or stalled node).
+func (c *simConn) stall() {
+	c.mu.Lock()
+	if !c.stalled {
+		c.stalled = true
+		c.unstall = make(chan struct{})
+	}
+	c.mu.Unlock()
+}
+
+func (c *simConn) release() {
+	c.mu.Lock()
+	if c.stalled {
+		c.stalled = false
+		close(c.unstall)
+	}
+	c.mu.Unlock()
 }
 
 func (c *simConn) armWriteFailure() {
